@@ -394,7 +394,7 @@ def judge_roundtrip(kind, items, exp_v, what):
         return Fail("C14/duration-not-normalised", "%s: %r is not in normalised form" % (what, st))
     if k == "ymd" and not cal.ymd_is_normalised(st):
         return Fail("C14/duration-not-normalised", "%s: %r is not in normalised form" % (what, st))
-    if st in GAP_TEXTS and not is_null(w) and eq is not False:
+    if k == "dt" and is_skipped_local_time(st) and not is_null(w) and eq is not False:
         pass        # a skipped local time: read back as a value; equal to itself or not comparable
     elif is_null(w) or eq is not True:
         return Fail(diagnose_readback(kind, st, ps[1], w, eq), "%s: the text form %r read back gives %r, equal to the original: %r" % (what, st, w, eq))
@@ -658,6 +658,37 @@ def gen_time_text(src):
 # about comparing them (not even with themselves)
 GAP_TEXTS = ["2021-03-28T02:30:00@Europe/Warsaw", "2021-03-14T02:30:00@America/New_York", "2019-10-06T02:30:00@Australia/Sydney",
              "2015-03-29T01:30:00@Europe/London", "2018-11-04T00:30:00@America/Sao_Paulo", "2010-03-28T02:00:00@Europe/Berlin"]
+
+
+_SKIPPED = {}
+
+
+def is_skipped_local_time(text):
+    """a date and time with a named zone whose wall-clock time that zone skips (clocks go forward there), by the system's zone data;
+    also texts that a corruption made of such a literal"""
+    import datetime as _d
+    import re as _re
+    r = _SKIPPED.get(text)
+    if r is not None:
+        return r
+    r = False
+    m = _re.match(r"^(\d{4,9})-(\d\d)-(\d\d)T(\d\d):(\d\d):(\d\d)(?:\.\d+)?@([A-Za-z0-9_+\-/]+)$", text)
+    if m:
+        try:
+            from zoneinfo import ZoneInfo
+            z = ZoneInfo(m.group(7))
+            y, mo, d, h, mi, sec = (int(m.group(i)) for i in range(1, 7))
+            if y > 9999:
+                y = 2400 + y % 400      # the calendar repeats every 400 years and the zone's last rule goes on for ever
+            local = _d.datetime(y, mo, d, h, mi, sec)
+            back = local.replace(tzinfo=z).astimezone(_d.timezone.utc).astimezone(z).replace(tzinfo=None)
+            r = back != local
+        except Exception:
+            r = False
+    if len(_SKIPPED) > 5000:
+        _SKIPPED.clear()
+    _SKIPPED[text] = r
+    return r
 
 
 def gen_dt_text(src):
